@@ -4,7 +4,7 @@ PROP = dict(
     level="proof",
     lean_modules=['PopsModel.Props.C04'],
     theorems=['Pops.C04_generation', 'Pops.C04_soil_split', 'Pops.C04_soil_ages_out', 'Pops.C04_each_disperser_once', 'Pops.C04_ledger_cell', 'Pops.C04_ledger'],
-    commands=['hp.spread', 'hp.dispfrom', 'hp.add', 'hp.soil.*'],
+    commands=['hp.spread', 'hp.dispfrom', 'hp.add', 'hp.soil.*', 'hp.soilstate'],
     runs={
         "quick": [('h_host', 'pool', 0, 1500), ('h_host', 'soil', 0, 400), ('h_model', 'model', 0, 400)],
         "thorough": [('h_host', 'pool', 0, 150000), ('h_host', 'soil', 0, 40000), ('h_model', 'model', 0, 20000)],
